@@ -88,8 +88,11 @@ def crossratio(
             # plane with the same coordinates (base points may coincide with the common point of the lines)
             a, b, c, d = (PointCollection.from_array(x.array) for x in (a, b, c, d))
         else:
-            from_point = a.meet(b)
-            a, b, c, d = a.base_point, b.base_point, c.base_point, d.base_point
+            # section of the four lines with a coordinate hyperplane that does not contain their common point
+            v = a.meet(b)
+            i = np.argmax(np.abs(v.array), axis=-1)
+            e = PlaneCollection.from_array(np.eye(a.dim + 1, dtype=int)[i])
+            a, b, c, d = e.meet(a), e.meet(b), e.meet(c), e.meet(d)
 
     elif (
         isinstance(a, PlaneTensor)
